@@ -387,6 +387,8 @@ class Engine:
             if self.repo.find_method(c, "__bool__") or self.repo.find_method(c, "__len__"):
                 raise Unsupported(f"truthiness of {c} with __bool__/__len__")
             return z3.BoolVal(True)
+        if ty.k == "opaque":
+            return z3.BoolVal(True)
         if ty.k == "opt":
             inner = self.truthy(SV(t, ty.a[0]), st)
             return z3.And(z3.Not(V.is_none(t)), inner)
